@@ -544,6 +544,8 @@ def proved(run):
             f(run)
         except (I.OutOfSubset, KeyError) as e:
             run.obligation(f"C02/{f.__name__}", "out-of-subset", detail=str(e))
+    from props import resolves as _res
+    _res.budget_obligation(run, "C02")
 
 
 # ------------------------------------------------------------------ CKY: the chart update is the inside recurrence (soundness + coverage)
